@@ -9,18 +9,19 @@ from .. import core
 LEVEL = "model_checking"
 
 
-def gen(nb, ncfg):
+def gen(nb, ncfg, mode="sim"):
   mod = "---- MODULE Gen_PairFilter ----\nEXTENDS PairFilter\nGMasks == {0, 1, 2, 3}\n====\n"
   cfg = f"""CONSTANTS
   NB = {nb}
   Masks <- GMasks
-  Mode = "sim"
+  Mode = "{mode}"
   NCfg = {ncfg}
 SPECIFICATION Spec
 INVARIANT Symmetric
 INVARIANT StaticNeverDynamic
 INVARIANT ExplicitWins
 INVARIANT EmitCfg
+CHECK_DEADLOCK FALSE
 """
   return {"Gen_PairFilter.tla": mod, "Gen_PairFilter.cfg": cfg}
 
@@ -120,6 +121,37 @@ def run(ctx: core.Ctx):
     k = int(n * share)
     r = ctx.tlc("Gen_PairFilter", "Gen_PairFilter.cfg", gen=gen(nb, k), workers=1, simulate="num=1", depth=k + 1, seed=(ctx.seed + nb) % (1 << 30), timeout=900)
     cfgs = r.emit("cfg")
+    for c in cfgs:
+      ctx.case({"nb": nb, "cfg": c["c"]}, nontrivial=True, key=(nb, c["c"]))
+    CH = max(1, len(cfgs) // 14 + 1)
+    work += [(nb, cfgs[i : i + CH]) for i in range(0, len(cfgs), CH)]
+  # exhaustive structural part: every forest x jointed/welded assignment x filterparent (96 for 3 bodies, 768 for 4)
+  for nb in ((3,) if ctx.quick else (3, 4)):
+    r = ctx.tlc("Gen_PairFilter", "Gen_PairFilter.cfg", gen=gen(nb, 1, mode="enum"), workers=1, timeout=900)
+    cfgs = r.emit("cfg")
+    def rootpath_count(n):
+      import itertools
+      cnt = 0
+      for par in itertools.product(range(n + 1), repeat=n):
+        ok = True
+        for b in range(1, n + 1):
+          pb = par[b - 1]
+          if pb == 0:
+            continue
+          if b == 1:
+            ok = False
+            break
+          path, x = set(), b - 1
+          while x:
+            path.add(x)
+            x = par[x - 1]
+          if pb not in path:
+            ok = False
+            break
+        cnt += ok
+      return cnt
+    if len(cfgs) != rootpath_count(nb) * (2 ** nb) * 2:
+      raise RuntimeError(f"enumeration of PairFilter structures for {nb} bodies gave {len(cfgs)} configurations")
     for c in cfgs:
       ctx.case({"nb": nb, "cfg": c["c"]}, nontrivial=True, key=(nb, c["c"]))
     CH = max(1, len(cfgs) // 14 + 1)
